@@ -14,6 +14,7 @@ CFG = dict(
         "bw_cw_of_not_collinear", "bw_all_indices_lt", "superTriangle_cw", "pointFn_input", "pointFn_super",
         "bowyerWatson_spec", "bowyerWatson_not_ccw", "bw_order_independent_partial",
         "superTriangle_contains_box", "superTriangle_contains",
+        "mem_polygon_iff", "bw_polygon_order_independent", "bw_hole_order_independent",
     ],
     streams=[dict(name="c20", n=dict(quick=240, thorough=6000))],
     trusted=T_COMMON + [
@@ -29,7 +30,7 @@ CFG = dict(
         "Go evaluates orient / inCircle in float64 (rounding); all theorems are over exact arithmetic (ordered rings/fields). The oracle judges the float "
         "implementation's output against the exact predicates, so a float sign error on a near-degenerate input would show up as an oracle failure; generators keep predicates well-conditioned",
         "coverage of the convex hull is not part of C20 and not checked (a finite super-triangle may drop thin hull triangles; 3 nearly collinear points give zero triangles)",
-        "bw_order_independent_partial covers the bad-triangle set only; independence of the final triangle set from map order is observed (implementation with random Go map order vs model with fixed order on c20.bw lines), not proved",
+        "order independence is proved per insertion step for the bad-triangle set and the hole-boundary edge SET (bw_order_independent_partial, bw_hole_order_independent); independence of the final triangle set from map order (which also needs fillHole insensitive to edge order and an induction over the loop) is observed (implementation with random Go map order vs model with fixed order on c20.bw lines), not proved",
         "proved for the model only under positive width (superTriangle_cw); inputs of zero width (all x equal) are not in general position",
     ],
     assumptions=["float64 arithmetic in Go on amd64 is IEEE-754 without FMA contraction; for integer inputs in [0,64] all intermediate values of the predicates are integers/half-integers below 2^53, hence exact"],
